@@ -361,6 +361,60 @@ class SymMaskedArray(_np.ma.MaskedArray, metaclass=_MAMeta):
             return _np.ma.masked if om.reshape(-1)[0] else od.reshape(-1)[0]
         return res
 
+    def _sym_binop(self, other, fn):
+        """numpy.ma domained operations (true_divide, floor_divide, power)
+        on object arrays: mask = union of operand masks | non-finite result"""
+        da = _np.ma.getdata(self).view(_np.ndarray)
+        db = _np.ma.getdata(other)
+        if isinstance(db, _np.ndarray):
+            db = db.view(_np.ndarray)
+        ma = _np.ma.getmaskarray(self)
+        mb = _np.ma.getmaskarray(other) if isinstance(
+            other, _np.ndarray) else False
+        res = _np.asarray(fn(da, db), dtype=object)
+        m = _np.broadcast_to(ma | mb, res.shape).copy()
+        fl = m.reshape(-1)
+        for i, x in enumerate(res.reshape(-1)):
+            if not fl[i] and not _isfinite1(x):
+                fl[i] = True
+        out = _np.ma.MaskedArray(res, mask=m).view(type(self))
+        try:
+            out._update_from(self)
+        except Exception:
+            pass
+        out._mask = m
+        return out
+
+    def _objop(self, other):
+        return self.dtype == object or (isinstance(other, _np.ndarray) and
+                                        other.dtype == object) or \
+            isinstance(other, (Sym, SymNaN))
+
+    def __truediv__(self, other):
+        if self._objop(other):
+            return self._sym_binop(other, lambda a, b: a / b)
+        return _np.ma.MaskedArray.__truediv__(self, other)
+
+    def __rtruediv__(self, other):
+        if self._objop(other):
+            return self._sym_binop(other, lambda a, b: b / a)
+        return _np.ma.MaskedArray.__rtruediv__(self, other)
+
+    def __floordiv__(self, other):
+        if self._objop(other):
+            return self._sym_binop(other, lambda a, b: a // b)
+        return _np.ma.MaskedArray.__floordiv__(self, other)
+
+    def __rfloordiv__(self, other):
+        if self._objop(other):
+            return self._sym_binop(other, lambda a, b: b // a)
+        return _np.ma.MaskedArray.__rfloordiv__(self, other)
+
+    def __pow__(self, other):
+        if self._objop(other):
+            return self._sym_binop(other, lambda a, b: a ** b)
+        return _np.ma.MaskedArray.__pow__(self, other)
+
     def _dispatch(self, kind, axis, keepdims, sup, **kw):
         if self.dtype == object:
             kd = False if keepdims is _np._NoValue else keepdims
@@ -411,6 +465,34 @@ class SymMaskedArray(_np.ma.MaskedArray, metaclass=_MAMeta):
                                               keepdims))
 
 
+def masked_values(x, value, rtol=1e-5, atol=1e-8, copy=True, shrink=True):
+    """numpy.ma.masked_values: for floating data numpy masks where
+    isclose(x, value) -- |x - value| <= atol + rtol*|value| -- which is what
+    the symbolic reals stand for here (object dtype would otherwise fall to
+    the exact integer rule)"""
+    if not _needs(x):
+        return _np.ma.masked_values(x, value, rtol, atol, copy, shrink)
+    arr = _objarr(x)
+    data = _np.ma.getdata(arr)
+    inval = _np.zeros(data.shape, dtype=bool)
+    fl = inval.reshape(-1)
+    import fractions
+    rt = fractions.Fraction(rtol).limit_denominator(10 ** 12)
+    at = fractions.Fraction(atol).limit_denominator(10 ** 12)
+    for i, v in enumerate(data.reshape(-1)):
+        if isinstance(v, SymNaN):
+            fl[i] = False
+            continue
+        if isinstance(v, (symx.SymInt, int, _np.integer)):
+            # integer data: numpy compares exactly (umath.equal)
+            fl[i] = bool(v == value)
+            continue
+        d = abs(v - value)
+        fl[i] = bool(d <= at + rt * abs(value))
+    mask = inval | _np.ma.getmaskarray(arr)
+    return _np.ma.MaskedArray(data.copy() if copy else data, mask=mask)
+
+
 def make_numpy_shim():
     over = {
         'isscalar': lambda x: True if isinstance(x, (Sym, SymNaN))
@@ -450,6 +532,7 @@ def make_numpy_shim():
         'MaskedArray': SymMaskedArray,
         'masked_array': SymMaskedArray,
         'masked_invalid': masked_invalid,
+        'masked_values': masked_values,
         'floor': over['floor'], 'ceil': over['ceil'], 'round': _round,
         'around': _round,
     }
